@@ -29,6 +29,10 @@ def tasks(tier, seed):
     # a valid file this library did not write: no padding behind the last object (decoder's skip vs. end-of-stream declaration)
     ts += SCH.foreign_tasks(tier, 'sched', kinds | {'hang'})
 
+    # a file with an unknown object that spans two containers: the decoder may reach the skip before or after the inflater
+    # has delivered the second container
+    ts += SCH.unknown_tasks(tier, 'sched', kinds | {'hang'})
+
     post = SCH.digest_post
     meta = dict(
         level='model_checking',
